@@ -630,4 +630,10 @@ VARIANTS += [
     fire('r10-number-format-abs', ['C12', 'C09'], [('autobean_refactor/models/number.py', "        return format(value, 'f')", "        return format(abs(value), 'f')")], 'NUM-RT'),
     fire('r10-number-format-str-unless-positive-exponent', ['C12', 'C15'], [('autobean_refactor/models/number.py', "        return format(value, 'f')", "        if value.as_tuple().exponent > 0:\n            return format(value, 'f')\n        return str(value)")], 'NUM-RT'),
     silent('r10-twin-number-format-fstring', ['C12', 'C09', 'C15'], [('autobean_refactor/models/number.py', "        return format(value, 'f')", "        return f'{value:f}'")]),
+    fire('r10-cost-right-brace-not-replaced', ['C09'], [('autobean_refactor/models/cost.py', "        self.token_store.replace(self._right_brace, dbl_right_brace)\n", "")], 'COST-SEM'),
+    fire('r10-cost-braces-crossed', ['C09'], [('autobean_refactor/models/cost.py', "        return UnitCost(self.token_store, left_brace, self._components, right_brace)", "        return UnitCost(self.token_store, right_brace, self._components, left_brace)")], 'COST-SEM'),
+    fire('r10-cost-into-unit-keeps-old-cost', ['C09'], [(CS, "        self._cost = total_cost.into_unit_cost()", "        total_cost.into_unit_cost()")], 'COST-SEM'),
+    fire('r10-cost-merge-setter-inverted', ['C09'], [(CS, "        if current and not value:\n            self.raw_asterisk = None\n        elif not current and value:", "        if current and not value:\n            self.raw_asterisk = None\n        elif value:")], 'COST-SEM'),
+    silent('r10-twin-cost-into-total-splice', ['C09', 'C05'], [('autobean_refactor/models/cost.py', "        self.token_store.replace(self._left_brace, dbl_left_brace)\n        self.token_store.replace(self._right_brace, dbl_right_brace)\n", "        store = self.token_store\n        store.replace(self._right_brace, dbl_right_brace)\n        store.replace(self._left_brace, dbl_left_brace)\n")]),
+    silent('r10-twin-cost-merge-setter-compare', ['C09'], [(CS, "        if current and not value:\n            self.raw_asterisk = None\n        elif not current and value:", "        if current == bool(value):\n            return\n        if current:\n            self.raw_asterisk = None\n        else:")]),
 ]
